@@ -8,6 +8,8 @@ interleavings of operations of any number of simulators with unrelated
 activity on the global generator.
 -/
 import FDAProofs.Lemmas.SimulationRng
+import Mathlib.Analysis.SpecialFunctions.Pow.Real
+import Mathlib.Analysis.SpecialFunctions.Trigonometric.Basic
 
 namespace C19
 open FDA.Rng
@@ -197,6 +199,47 @@ theorem eigenvalues_inverse_pos_noninc (n i : Nat) :
   refine ⟨by positivity, ?_⟩
   apply one_div_le_one_div_of_le (by positivity)
   linarith
+
+/-! ### named eigenvalue sequences, real-valued closed forms (exponential, sqrt, Wiener)
+
+These three sequences involve `exp`, a real power and `π`; the driver cannot execute them, so
+the statements are about the real-valued closed forms and the floating-point sequences of the
+implementation are validated by the oracle only (listed as partial in the evidence). -/
+
+/-- `_eigenvalues_exponential(n)[i] = exp(-i/2)` -/
+noncomputable def eigExponentialR (i : ℕ) : ℝ := Real.exp (-(i : ℝ) / 2)
+/-- `_eigenvalues_sqrt(n)[i] = (i+1)^(-1/2)` -/
+noncomputable def eigSqrtR (i : ℕ) : ℝ := ((i : ℝ) + 1) ^ (-(1 / 2) : ℝ)
+/-- `_eigenvalues_wiener(n)[i] = ((π/2)(2(i+1) - 1))^(-2)` -/
+noncomputable def eigWienerR (i : ℕ) : ℝ := 1 / ((Real.pi / 2) * (2 * ((i : ℝ) + 1) - 1)) ^ 2
+
+theorem eigenvalues_exponential_pos_noninc_real (i : ℕ) :
+    0 < eigExponentialR i ∧ eigExponentialR (i + 1) ≤ eigExponentialR i := by
+  unfold eigExponentialR
+  refine ⟨Real.exp_pos _, Real.exp_le_exp.mpr ?_⟩
+  push_cast
+  linarith
+
+theorem eigenvalues_sqrt_pos_noninc_real (i : ℕ) : 0 < eigSqrtR i ∧ eigSqrtR (i + 1) ≤ eigSqrtR i := by
+  unfold eigSqrtR
+  have hi : (0 : ℝ) ≤ (i : ℝ) := Nat.cast_nonneg i
+  refine ⟨Real.rpow_pos_of_pos (by linarith) _, ?_⟩
+  apply Real.rpow_le_rpow_of_nonpos (by linarith) (by push_cast; linarith) (by norm_num)
+
+theorem eigenvalues_wiener_pos_noninc_real (i : ℕ) : 0 < eigWienerR i ∧ eigWienerR (i + 1) ≤ eigWienerR i := by
+  unfold eigWienerR
+  have hi : (0 : ℝ) ≤ (i : ℝ) := Nat.cast_nonneg i
+  have hpi := Real.pi_pos
+  have h1 : 0 < (Real.pi / 2) * (2 * ((i : ℝ) + 1) - 1) := mul_pos (by positivity) (by linarith)
+  refine ⟨by positivity, ?_⟩
+  apply one_div_le_one_div_of_le (by positivity)
+  apply pow_le_pow_left₀ (le_of_lt h1)
+  push_cast
+  nlinarith
+
+/-- with `exp` positive, a geometric path over the reals is positive as well: the factors of
+`_geometric_brownian` are `exp(…)` values -/
+theorem geometric_factors_positive_real (x : ℝ) : 0 < Real.exp x := Real.exp_pos x
 
 /-! ### Brownian paths and the grid guard -/
 
